@@ -38,6 +38,45 @@ pub struct Package {
     pub content: Vec<u8>,
 }
 
+/// Where below `dest` the package path `path` is extracted to. A path with a `..` component is
+/// refused: it could name something outside `dest`.
+fn extraction_path(dest: &Path, path: &Path) -> Result<PathBuf, Error> {
+    match path.strip_prefix("/") {
+        Ok(rel) if rel.components().any(|c| c == std::path::Component::ParentDir) => {
+            Err(Error::InvalidDestinationPath {
+                path: path.display().to_string(),
+                desc: "'..' components are not allowed",
+            })
+        }
+        Ok(rel) => Ok(dest.join(rel)),
+        Err(_) => Ok(dest.to_path_buf()),
+    }
+}
+
+fn is_symlink(path: &Path) -> bool {
+    path.symlink_metadata()
+        .map(|m| m.file_type().is_symlink())
+        .unwrap_or(false)
+}
+
+/// Refuse to go through a symbolic link (put there by an earlier entry of the package) on the way
+/// from `dest` to `path`; with `last` the final component may not be a link either.
+fn refuse_symlinks(dest: &Path, path: &Path, last: bool) -> Result<(), Error> {
+    let rel = path.strip_prefix(dest).unwrap_or(Path::new(""));
+    let count = rel.components().count();
+    let mut current = dest.to_path_buf();
+    for (i, component) in rel.components().enumerate() {
+        current.push(component);
+        if (last || i + 1 < count) && is_symlink(&current) {
+            return Err(Error::InvalidDestinationPath {
+                path: path.display().to_string(),
+                desc: "leads through a symbolic link",
+            });
+        }
+    }
+    Ok(())
+}
+
 impl Package {
     /// Open and parse a file at the provided path as an RPM package
     pub fn open(path: impl AsRef<Path>) -> Result<Self, Error> {
@@ -120,9 +159,7 @@ impl Package {
 
         // pull every base directory name in the package and create the directory in advance
         for dir in dirs {
-            let dir_path = dest
-                .as_ref()
-                .join(Path::new(dir).strip_prefix("/").unwrap_or(dest.as_ref()));
+            let dir_path = extraction_path(dest.as_ref(), Path::new(dir))?;
             fs::create_dir_all(&dir_path)?;
         }
 
@@ -130,32 +167,39 @@ impl Package {
         // instead of reading each file entirely into memory (while the archive is also entirely in memory) before writing them
         for file in self.files()? {
             let file = file?;
-            let file_path = dest.as_ref().join(
-                file.metadata
-                    .path
-                    .strip_prefix("/")
-                    .unwrap_or(dest.as_ref()),
-            );
+            let file_path = extraction_path(dest.as_ref(), &file.metadata.path)?;
 
             let perms = fs::Permissions::from_mode(file.metadata.mode.permissions().into());
             match file.metadata.mode {
                 FileMode::Dir { .. } => {
+                    refuse_symlinks(dest.as_ref(), &file_path, true)?;
                     fs::create_dir_all(&file_path)?;
                     fs::set_permissions(&file_path, perms)?;
                 }
                 FileMode::Regular { .. } => {
+                    refuse_symlinks(dest.as_ref(), &file_path, false)?;
+                    // never write through a link an earlier entry put at this very path
+                    if is_symlink(&file_path) {
+                        fs::remove_file(&file_path)?;
+                    }
                     let mut f = fs::File::create(&file_path)?;
                     f.write_all(&file.content)?;
                     fs::set_permissions(&file_path, perms)?;
                 }
                 FileMode::SymbolicLink { .. } => {
+                    refuse_symlinks(dest.as_ref(), &file_path, false)?;
                     // broken symlinks (common for debuginfo handling) are perceived as not existing by "exists()"
                     if file_path.exists() || file_path.symlink_metadata().is_ok() {
                         fs::remove_file(&file_path)?;
                     }
                     std::os::unix::fs::symlink(&file.metadata.linkto, &file_path)?;
                 }
-                _ => unreachable!("Encountered an unknown or invalid FileMode"),
+                mode => {
+                    return Err(Error::InvalidFileMode {
+                        raw_mode: mode.raw_mode().into(),
+                        reason: "only regular files, directories and symbolic links can be extracted",
+                    });
+                }
             }
         }
 
